@@ -103,7 +103,7 @@ func zzNewEnv(r *sim.Run) *zzEnv {
 	p := zzParams{
 		CryptoSeed: uint64(t.Choose("cryptoseed", 1<<16)),
 		ScryptN:    []int{2, 16, 64}[t.Choose("knob.scryptN", 3)],
-		WB:         []int{4 << 10, 64 << 10, 1 << 20}[t.Choose("knob.wb", 3)],
+		WB:         []int{64 << 10, 256 << 10, 1 << 20}[t.Choose("knob.wb", 3)],
 		BC:         []int{8 << 10, 1 << 20}[t.Choose("knob.bc", 2)],
 	}
 	zzLastParams = p
